@@ -1,5 +1,5 @@
 """C13 - every block token reports the source line on which it starts (E2 with line bookkeeping)."""
-from mc import core, trees
+from mc import core, trees, leafspell
 
 ID = 'C13'
 TECHNIQUE = ('exhaustive enumeration of all document trees with <= 3/4 block nodes x all spellings with <= 2 non-default '
@@ -24,6 +24,7 @@ def jobs(tier):
         ns = NSHARD if n >= 3 else 1
         for s in range(ns):
             js.append((n, b['depth'], b['d_all'], b['d_moving'], s, ns))
+    js += leafspell.jobs()
     return js
 
 
@@ -77,7 +78,55 @@ def check_lines(md, exp):
     return None
 
 
+LEAF_KIND = {'fence': 'fence', 'atx': 'atx', 'setext': 'setext', 'indented': 'indented', 'indented-tab': 'indented', 'html': 'html',
+             'table': 'table', 'para': 'para', 'hr': 'hr', 'atx-not': 'para', 'hr-not': 'para', 'table-not': 'para'}
+
+
+def leaf_expectation(case, ctx, ln):
+    """[(writer kind, 1-based line)] in pre-order for a leaf spelling placed in a context"""
+    k = LEAF_KIND[case[0]]
+    n = len(case[1])
+    if ctx == 'alone':
+        return [(k, 1)]
+    if ctx == 'then-paragraph':
+        return [(k, 1), ('para', n + 2)]
+    if ctx == 'then-paragraph-directly':
+        return [(k, 1), ('para', n + 1)]
+    if ctx == 'after-paragraph':
+        return [('para', 1), (k, 3)]
+    if ctx == 'in-quote':
+        return [('quote', 1), (k, 1)]
+    if ctx == 'in-list-item':
+        return [('list', 1), ('item', 1), ('para', 1), (k, 3)]
+    raise KeyError(ctx)
+
+
+def run_leaf_job(job):
+    r = core.Result()
+    for case in leafspell.cases_of_job(job):
+        r.states += 1
+        for ctx in leafspell.CONTEXTS:
+            x = leafspell.in_context(case, ctx)
+            if x is None:
+                continue
+            md = x[0]
+            exp = leaf_expectation(case, ctx, x[2])
+            r.transitions += 1
+            res = check_lines(md, exp)
+            if isinstance(res, tuple):
+                r.skip(res[1])
+                continue
+            r.validated += 1
+            if res:
+                r.fail(dict(markdown=md, lines=exp, family=case[0], context=ctx), res['sig'], res['detail'])
+            r.outcome('leaf:' + case[0])
+    r.sample(dict(space='leaf spellings', family=job[1]), 1)
+    return r
+
+
 def run_job(job):
+    if job[0] == 'leafspell':
+        return run_leaf_job(job)
     n, depth, d_all, d_moving, shard, nshard = job
     r = core.Result()
     sps = list(trees.spellings(d_all))
